@@ -177,3 +177,18 @@ PROPS["C19"] = dict(
     assumptions=[],
     rule="bounded: random polylines / listed networks; distinct = distinct parameter tuples",
 )
+
+PROPS["C15"] = dict(
+    level="proof",
+    explanation="Python half proved from the real source: diff_down of every operator (16 unary/binary operators + if_else) adds (adjoint of the node) x (partial "
+                "derivative) to each operand's adjoint, incl. the aliased case where both operands are the same node, with the partials written from calculus; "
+                "arithmetic of Var/Float/native numbers through the overloaded operators denotes the arithmetic result; Model._increment_*/_decrement_* keep "
+                "refcounts and python<->C object maps consistent and never raise; Model.__setattr__/__delattr__ register / unregister every constraint of a "
+                "Constraint or ConstraintDict. Bounded: the compiled evaluator, rebuilt from the current C++ sources on every run, against Python reference "
+                "semantics (residuals vs Constraint.evaluate, CSR Jacobian rows/columns vs reverse-mode AD, AD vs central differences) on random expression "
+                "DAGs and add/remove/set-value histories incl. conditional constraints exactly at their thresholds.",
+    trusted_base=["transcendental functions uninterpreted (same symbols in code and spec)", "C++ evaluator.cpp: bounded differential stand-in only (C15.evaluator)"],
+    not_decided=["chain-rule accumulation across a whole expression (reverse_ad / reverse_sd sweeps) and get_rpn: bounded only", "evaluation at singular points (division by zero, log 0)"],
+    assumptions=["operators are evaluated at regular points"],
+    rule="bounded: random models x histories; distinct = distinct (model, step) pairs",
+)
